@@ -116,6 +116,24 @@ fn positions_of_keys(b: &Built, keys: &[(Key, Value)]) -> Vec<i64> {
     keys.iter().map(|(k, _)| b.stored.iter().position(|s| s == k).map(|p| p as i64).unwrap_or(-1)).collect()
 }
 
+struct Shown<'a> {
+    l: &'a Listing,
+    b: &'a Built,
+    page: &'a [Value],
+    want: &'a [(Key, Value)],
+}
+
+impl std::fmt::Display for Shown<'_> {
+    fn fmt(&self, f: &mut std::fmt::Formatter) -> std::fmt::Result {
+        write!(
+            f,
+            "returned keys (positions in key order) {:?}, expected {:?}",
+            positions(self.l, self.b, self.page),
+            positions_of_keys(self.b, self.want)
+        )
+    }
+}
+
 pub struct PageOut {
     pub page: Result<Vec<Value>, String>,
     pub expected: Vec<Value>,
@@ -146,9 +164,8 @@ pub fn check_page(l: &Listing, b: &Built, n: usize, limit: Option<u32>, cursor: 
             return PageOut { page: Err(e), expected: want, viols, short_nonfinal: false };
         }
     };
-    let got_pos = positions(l, b, &page);
-    let want_pos = positions_of_keys(b, &rest[..rest.len().min(eff)]);
-    let shown = format!("returned keys (positions in key order) {got_pos:?}, expected {want_pos:?}");
+    // only evaluated when a violation is described
+    let shown = Shown { l, b, page: &page, want: &rest[..rest.len().min(eff)] };
     if let Some(x) = limit {
         if page.len() > x as usize {
             viols.push(Violation::new(
